@@ -46,7 +46,7 @@ func Digraph(X []int, R []Relation,
 }
 
 func Union(a []int, b []int) []int {
-	c := b
+	c := append([]int{}, b...)
 	for _, v := range a {
 		found := false
 		for _, u := range b {
